@@ -60,6 +60,8 @@ type c15Op struct {
 	WL     *WLCase  `json:"wl,omitempty"`
 	Call   string   `json:"call"`
 	Script []uint32 `json:"script,omitempty"`
+	Trials int      `json:"max_trials"`
+	Fail   float64  `json:"max_fail_rate"`
 }
 
 // c15Exec performs the call on the given live objects and renders the result.
@@ -180,6 +182,9 @@ func wlChoices(p *spg.Password, order []string) string {
 
 // c15Fresh executes the op on freshly constructed values.
 func c15Fresh(op c15Op) string {
+	if op.Trials > 0 {
+		defer knobs(op.Trials, op.Fail)()
+	}
 	switch op.Kind {
 	case "char":
 		r := charFromDesc(op.Char)
@@ -316,6 +321,7 @@ func c15Case(c *Ctx) {
 }
 
 func c15History(c *Ctx, r *gen.R, nops int, sample bool) {
+	defer knobs(spg.MaxTrials, spg.MaxFailRate)() // whatever the history does to the knobs ends with it
 	c15Retained = nil
 	pool := &c15Pool{}
 	// shared RequireSets backing array (with spare capacity)
@@ -336,9 +342,25 @@ func c15History(c *Ctx, r *gen.R, nops int, sample bool) {
 				rec.Length = 3
 			}
 		}
+		if r.Chance(1, 4) { // class requirement overlapping a class exclusion
+			rec.Allow, rec.Require, rec.Exclude = spg.Lowers, spg.Digits, spg.Ambiguous
+			if rec.Length < 2 {
+				rec.Length = 4
+			}
+		}
 		rp := new(spg.CharRecipe)
 		*rp = rec
 		pool.chars = append(pool.chars, &c15Char{rec: rp, model: descChar(rec)})
+		if r.Chance(1, 2) { // field-regrouped siblings of the same recipe live in the same pool
+			for _, sib := range siblingsOf(r, rec) {
+				if len(pool.chars) >= 5 {
+					break
+				}
+				sp := new(spg.CharRecipe)
+				*sp = sib
+				pool.chars = append(pool.chars, &c15Char{rec: sp, model: descChar(sib)})
+			}
+		}
 	}
 	// lists
 	nlist := r.Range(1, 2)
@@ -450,6 +472,12 @@ func c15History(c *Ctx, r *gen.R, nops int, sample bool) {
 				c.Count("field_updates", 1)
 			}
 		}
+		// ---- the caller turns the package-level knobs now and then
+		if r.Chance(1, 12) {
+			kn := c13Knobs(r)
+			spg.MaxTrials, spg.MaxFailRate = kn.Trials, kn.FailRate
+			c.Count("knob_updates", 1)
+		}
 		// ---- a call
 		var op c15Op
 		var cr *spg.CharRecipe
@@ -487,6 +515,7 @@ func c15History(c *Ctx, r *gen.R, nops int, sample bool) {
 			}
 			op = c15Op{Kind: "sep", WL: &m, Call: "call", Script: script()}
 		}
+		op.Trials, op.Fail = spg.MaxTrials, spg.MaxFailRate
 		before := pool.snapshot()
 		res := ""
 		func() {
